@@ -11,7 +11,7 @@ def _c03(seed, idx, tier):
     return engines.faulted_case("C03", seed, idx, tier)
 
 
-reg("C03", "C03", _c03, "exploration", {"quick": 1600, "thorough": 24000},
+reg("C03", "C03", _c03, "exploration", {"quick": 3000, "thorough": 100000},
     rule="even cases: 25 seeded reply histories each (length 1-40; lattice of objective/constraint replies forcing "
          "ties, the feasibility tolerance exactly and one ulp above, NaN, +inf, -inf; penalties 0, 2^-20, 1, 2^20; "
          "filter sizes 1,2,3,5,unbounded) fed to a real Problem, best_eval compared with a plain-list reference after "
@@ -28,7 +28,7 @@ def _c12(seed, idx, tier):
     return engines.faulted_case("C12", seed, idx, tier)
 
 
-reg("C12", "C12", _c12, "exploration", {"quick": 1600, "thorough": 24000},
+reg("C12", "C12", _c12, "exploration", {"quick": 2400, "thorough": 80000},
     rule="even cases: 6 seeded operation histories each (n 1-5, every admissible nb_points, up to 60 ops: replace by "
          "random / near-duplicate / duplicate / collinear / far points, base shifts, resets; barrier-magnitude and NaN "
          "replies and eigh failures as faults; 60 % with twin constraints c == f) on a real Models object, oracles after "
@@ -46,7 +46,7 @@ def _c18(seed, idx, tier):
     return engines.faulted_case("C18", seed, idx, tier)
 
 
-reg("C18", "C18", _c18, "exploration", {"quick": 1600, "thorough": 24000},
+reg("C18", "C18", _c18, "exploration", {"quick": 4000, "thorough": 150000},
     rule="even cases: 12 seeded histories each (radii over 30 decades, radius_final = 0 / = radius_init, constants drawn "
          "inside their documented intervals, up to 200 ops: update_radius with ratios at the thresholds +-1 ulp and step "
          "norms over 12 decades, short-step shrink, enhance_resolution) on a real TrustRegion, invariants after every op; "
@@ -61,7 +61,7 @@ def _c10(seed, idx, tier):
     return pairs.c10_case(seed, idx, tier)
 
 
-reg("C10", "C10", _c10, "exploration", {"quick": 2400, "thorough": 36000},
+reg("C10", "C10", _c10, "exploration", {"quick": 3000, "thorough": 90000},
     rule="even cases: a seeded statement and one applicable syntactic restatement of it (bounds form, dict vs "
          "NonlinearConstraint, two-sided vs two one-sided, regrouping rows) run under one fault plan, traces compared "
          "bitwise; odd cases: a statement with fixed variables and/or scale=True: faithfulness of the solver's internal "
